@@ -45,7 +45,7 @@ def run_demo(tag):
         os.remove(os.path.join(wt, "tests", tn + ".rs"))
     else:
         sh("cargo build --offline --features cli 2>&1")
-        r = sh(f"bash {demo} 2>&1")
+        r = sh(f"bash {demo} {wt}/target/debug/copia 2>&1")
     print(f"  demo [{tag}]: rc={r.returncode}  {r.stdout.strip().splitlines()[-1][:160] if r.stdout.strip() else ''}")
     return r.returncode
 
